@@ -79,6 +79,8 @@ Proof.
     destruct r as [lv tm ou ws wt hd rl]; unfold rinv1, rinv2 in *; cbn in *. split; intros Ha; cbn in *; auto.
     destruct (H1 Ha) as (-> & -> & -> & ->). auto.
   - exact Hr.
+  - destruct (r_released r) eqn:E; [exact Hr|].
+    destruct r; cbn in *. subst. split; intros Ha; cbn in *; [discriminate|auto].
 Qed.
 
 Lemma apply_cmds_inv (cs : list (cmd W B)) : forall r, rinv r -> rinv (fst (apply_cmds imm r cs)).
@@ -223,6 +225,7 @@ Proof.
   - destruct (r_released r) eqn:E; [mono_fin|]. destruct r; cbn in *. split; auto.
   - destruct (mem tag (r_timers r)); [|mono_fin]. destruct r; cbn in *. split; auto.
   - mono_fin.
+  - destruct (r_released r) eqn:E; [mono_fin|]. destruct r; cbn in *. split; auto.
 Qed.
 
 Lemma apply_cmds_mono (cs : list (cmd W B)) : forall r,
@@ -337,6 +340,7 @@ Proof.
   - destruct (r_released r); cbn [snd]; intros x Hx; cbn in Hx; intuition (subst; reflexivity).
   - destruct (mem tag (r_timers r)); cbn [snd]; intros x Hx; cbn in Hx; intuition (subst; reflexivity).
   - intros x [<-|[]]. reflexivity.
+  - destruct (r_released r); cbn [snd]; intros x Hx; cbn in Hx; intuition (subst; reflexivity).
 Qed.
 
 Lemma apply_cmds_silent (cs : list (cmd W B)) : forall r,
@@ -433,6 +437,7 @@ Proof.
   - destruct (r_released r); auto.
   - destruct (mem tag (r_timers r)); auto.
   - auto.
+  - destruct (r_released r); [auto|]. cbn [fst r_live]. intros _. apply mem_app_l. exact Hk.
 Qed.
 
 Lemma apply_cmds_keeps k (cs : list (cmd W B)) : forall r,
